@@ -104,6 +104,22 @@ def structured_terms(classic):
             for r in pieces:
                 out.append(('grp', ('cat', p, q, r)))
                 out.append(('nest', 2, ('cat', p, q, r)))
+    # long tails: a group followed on its line by k siblings that take no (or little) room when flat, then text -
+    # "the whole output line on which the group's text sits", however many stack entries the rest of the line spans
+    groups = [('grp', ('cat', ('t', 'a'), ('soft',), B)), ('grp', ('cat', B, L, B))]
+    zeros = [('grp', ('soft',)), ('nest', 2, ('grp', ('soft',))), ('grp', ('nest', 2, ('soft',))), ('soft',), ('cat',), ('t', ''),
+             ('grp', ('cat', ('soft',), ('soft',))), ('align', ('grp', ('soft',)))]
+    if not classic:
+        zeros += [('ann', 7, ('grp', ('soft',))), ('fill', ('soft',), ('soft',))]
+    tails = [('t', 'a'), B, ('cat', B, L, B)]
+    for g in groups:
+        for z in zeros:
+            for k in (1, 2, 3, 4, 6):
+                for t in tails:
+                    body = ('cat', g) + (z,) * k + (t,)
+                    out.append(body)
+                    out.append(('grp', ('cat', ('t', 'f('), ('align', body), ('t', ')'))))
+                    out.append(('nest', 2, ('cat', ('hl',), body)))
     return out
 
 
